@@ -11,7 +11,8 @@
 #include <string.h>
 #include "verif.h"
 
-unsigned g_splice_calls, g_faults;	/* named in the loop contract */
+/* ghosts named in the loop contract */
+unsigned g_create_calls, g_splice_calls, g_flush_calls, g_faults, g_splice_size;
 
 #include "bin/tar2sqfs/src/process_tarball.c"
 #include "pack_env.h"
